@@ -1,10 +1,12 @@
 (* C02 — A successful resolution is a closed, consistent install set.
    Property theorems only; proofs are in Proofs/Resolve*.v.
 
-   resolve U W dq0 scheds  = Model/Resolver.v: GetPackagesWithDependencies on the
-   universe U (all indexes flattened), world W, initial disqualification set dq0
-   and one visit schedule per request for the map-range install_if loop.
-   Theorems quantify over EVERY schedule (also ones no Go run can follow). *)
+   resolve U W dq0 = Model/Resolver.v: GetPackagesWithDependencies on the
+   universe U (all indexes flattened), world W and initial disqualification set
+   dq0.  (Until fix c03e0c0 the install_if loop ranged over a Go map and the
+   model carried one visit schedule per request, over which every theorem
+   quantified; the loop now walks the dependency list by index and the model
+   is a function of (U, W, dq0) alone.) *)
 From Apko Require Import Base.Prelude Generated.VersionConsts Generated.C03Version Model.Version Model.Resolver
   Spec.ResolveSpec Proofs.ResolveProofs Proofs.ResolveProofs2 Proofs.ResolveTheorems Proofs.ResolveEnvelope Proofs.ResolveNoPanic.
 From Apko Require Proofs.ResolveClosure2.
@@ -18,16 +20,16 @@ Example c02_validator_example : closed_b U_F1 ["a"] (pkgs_of U_F1 [4; 0]) = true
 Proof. vm_compute. reflexivity. Qed.
 
 (* at most one package per name *)
-Theorem c02_nodup : forall U W dq0 scheds S,
-  resolve U W dq0 scheds = Ok S -> NoDup (List.map p_name (pkgs_of U S)).
+Theorem c02_nodup : forall U W dq0 S,
+  resolve U W dq0 = Ok S -> NoDup (List.map p_name (pkgs_of U S)).
 Proof. exact nodup_lemma. Qed.
 Print Assumptions c02_nodup.
-Example c02_nodup_example : resolve U_F1 ["a"; "b"] [] [] = Ok [4; 0; 1].
+Example c02_nodup_example : resolve U_F1 ["a"; "b"] [] = Ok [4; 0; 1].
 Proof. vm_compute. reflexivity. Qed.
 
 (* every member is a package of the universe *)
-Theorem c02_members_from_universe : forall U W dq0 scheds S,
-  resolve U W dq0 scheds = Ok S -> incl (pkgs_of U S) U /\ forall j, In j S -> j < List.length U.
+Theorem c02_members_from_universe : forall U W dq0 S,
+  resolve U W dq0 = Ok S -> incl (pkgs_of U S) U /\ forall j, In j S -> j < List.length U.
 Proof. exact members_lemma. Qed.
 Print Assumptions c02_members_from_universe.
 
@@ -35,15 +37,15 @@ Print Assumptions c02_members_from_universe.
    that extends the initial one) and a package of the chosen candidate's name
    is installed; a request that has no candidate under any such set — a name
    nothing provides, a version nothing satisfies — makes the resolution fail *)
-Theorem c02_failure_is_error : forall U W dq0 scheds,
-  (forall S, resolve U W dq0 scheds = Ok S ->
+Theorem c02_failure_is_error : forall U W dq0,
+  (forall S, resolve U W dq0 = Ok S ->
      forall w, In w W -> exists dq i, incl dq0 dq /\ In i (candidates (new_resolver U) dq (cook_str w)) /\
                                       exists j, In j S /\ p_name (nth j U dummy_pkg) = p_name (nth i U dummy_pkg)) /\
   ((exists w, In w W /\ forall dq, incl dq0 dq -> candidates (new_resolver U) dq (cook_str w) = []) ->
-   forall S, resolve U W dq0 scheds <> Ok S).
+   forall S, resolve U W dq0 <> Ok S).
 Proof. exact failure_lemma. Qed.
 Print Assumptions c02_failure_is_error.
-Example c02_failure_example : resolve U_F1 ["a"; "nosuch"] [] [] = Err /\ resolve U_F1 ["c>9"] [] [] = Err.
+Example c02_failure_example : resolve U_F1 ["a"; "nosuch"] [] = Err /\ resolve U_F1 ["c>9"] [] = Err.
 Proof. vm_compute. split; reflexivity. Qed.
 
 (* REFUTED: the stronger reading "a successful result satisfies every request"
@@ -54,28 +56,28 @@ Proof. vm_compute. split; reflexivity. Qed.
    the install_if loop without consulting dq, result [a, c=5.0, r].  Both are
    in the harness corpus and reproduce on the implementation. *)
 Theorem c02_request_satisfied_refuted :
-  request_refutes U_F1c ["k"] [] "k" "request-unsat/sibling-of-member" /\
-  request_refutes U_F6 ["r"; "c<2"] [["a"]] "c<2" "request-unsat/install-if-member".
+  request_refutes U_F1c ["k"] "k" "request-unsat/sibling-of-member" /\
+  request_refutes U_F6 ["r"; "c<2"] "c<2" "request-unsat/install-if-member".
 Proof. exact request_unsat_refuted_lemma. Qed.
 Print Assumptions c02_request_satisfied_refuted.
 
 (* the fuel the model gives getPackageDependencies — distinct package names + 2
    (fuel_bound) — never runs out, cycles included *)
-Theorem c02_termination : forall U W dq0 scheds, resolve U W dq0 scheds <> OutOfFuel.
+Theorem c02_termination : forall U W dq0, resolve U W dq0 <> OutOfFuel.
 Proof. exact termination_lemma. Qed.
 Print Assumptions c02_termination.
 Example c02_termination_example :
-  resolve [wp "a" "1" ["b"] [] []; wp "b" "1" ["a"; "b"] [] []] ["a"] [] [] = Ok [1; 0].
+  resolve [wp "a" "1" ["b"] [] []; wp "b" "1" ["a"; "b"] [] []] ["a"] [] = Ok [1; 0].
 Proof. vm_compute. reflexivity. Qed.
 
 (* the `panic` at the end of conflictingVersion is unreachable (every package the
    name map lists under a name is named so or provides it): the resolver's own
-   logic never panics, on any universe, world, initial set or schedule *)
-Theorem c02_no_panic : forall U W dq0 scheds, resolve U W dq0 scheds <> Panic.
+   logic never panics, on any universe, world or initial set *)
+Theorem c02_no_panic : forall U W dq0, resolve U W dq0 <> Panic.
 Proof. exact resolve_no_panic. Qed.
 Print Assumptions c02_no_panic.
 Example c02_no_panic_example :
-  resolve [wp "a" "1" [] ["v"; "v=2"] []; wp "b" "1" ["a"] ["v"; "a=1"] []] ["b"; "v"] [] [] = Ok [1].
+  resolve [wp "a" "1" [] ["v"; "v=2"] []; wp "b" "1" ["a"] ["v"; "a=1"] []] ["b"; "v"] [] = Ok [1].
 Proof. vm_compute. reflexivity. Qed.
 
 (* REFUTED: "a successful result is closed" is false of the faithful model and
@@ -85,11 +87,11 @@ Proof. vm_compute. reflexivity. Qed.
    dependencies, F3 self-provided dependency, F4 selected[name] branch,
    F5 cycle cut by name. *)
 Theorem c02_closed_refuted :
-  refutes U_F1 ["a"; "b"] [] "dep-unsat/same-name-other-version" /\
-  refutes U_F2 ["w"] [["d"]] "dep-unsat/install-if-member" /\
-  refutes U_F3 ["a"] [] "dep-unsat/self-provided" /\
-  refutes U_F4 ["b"; "a"] [] "dep-unsat/provider-other-version" /\
-  refutes U_F5 ["d"] [] "dep-unsat/absent".
+  refutes U_F1 ["a"; "b"] "dep-unsat/same-name-other-version" /\
+  refutes U_F2 ["w"] "dep-unsat/install-if-member" /\
+  refutes U_F3 ["a"] "dep-unsat/self-provided" /\
+  refutes U_F4 ["b"; "a"] "dep-unsat/provider-other-version" /\
+  refutes U_F5 ["d"] "dep-unsat/absent".
 Proof. exact closed_refuted_lemma. Qed.
 Print Assumptions c02_closed_refuted.
 
@@ -110,8 +112,8 @@ Print Assumptions c02_closed_refuted.
    evaluated to options is chosen or later skipped; the cycle cut through
    `parents` skips only names being expanded higher up).  Outside the envelope
    the statement is false: c02_closed_refuted.  See notes/C02.md. *)
-Theorem c02_closed_partial : forall U W dq0 scheds S,
-  envelope_b U W = true -> resolve U W dq0 scheds = Ok S ->
+Theorem c02_closed_partial : forall U W dq0 S,
+  envelope_b U W = true -> resolve U W dq0 = Ok S ->
   NoDup (List.map p_name (pkgs_of U S)) /\ incl (pkgs_of U S) U /\
   (forall w, In w W -> satisfies_dep (pkgs_of U S) w) /\
   (forall p d, In p (pkgs_of U S) -> In d (p_deps p) -> is_conflict d = false -> satisfies_dep (pkgs_of U S) d) /\
@@ -124,6 +126,6 @@ Print Assumptions c02_closed_partial.
    a conflict entry *)
 Example c02_closed_partial_example :
   let U := [wp "a" "1.0" ["b>0.5"; "v"; "a"] [] []; wp "b" "1.0" ["c"; "!zz"] ["v=2"] []; wp "c" "2.0" ["a<2"; "v"] [] []] in
-  envelope_b U ["a"; "v"] = true /\ resolve U ["a"; "v"] [] [] = Ok [2; 1; 0] /\
+  envelope_b U ["a"; "v"] = true /\ resolve U ["a"; "v"] [] = Ok [2; 1; 0] /\
   closed_b U ["a"; "v"] (pkgs_of U [2; 1; 0]) = true.
 Proof. vm_compute. repeat split; reflexivity. Qed.
